@@ -145,9 +145,9 @@ Definition codegen_check (p0 : program) (top : realfun) (funs : list realfun) (g
              match find (fun rf => Nat.eqb (rf_id rf) fid) funs with
              | None => "missing-function"
              | Some rf =>
-                 match find_fun p fid with
+                 match find_def p fid with
                  | None => "missing-function"
-                 | Some fd =>
+                 | Some (fd, _) =>
                      if negb (strs_eqb (rf_locals rf) (locals_of fd)) then ("locals-layout:" ++ fc_name fc)%string else
                      match cfg_equiv (fc_code (rf_code rf)) (fc_code fc) with
                      | Some (a, b) => ("code:" ++ fc_name fc ++ "@" ++ zstr (Z.of_nat a) ++ "/" ++ zstr (Z.of_nat b))%string
